@@ -80,13 +80,13 @@ class PLate(P):
     rpc_rare = ('restart', 'shutdown', 'restart_sequence')
     conciliation = ('USER',)
     fault_ops = ('crash',)
-    proc_ops = ('direct_start', 'direct_start', 'direct_start')
-    user_ops = ('rpc_fuzz', 'rpc_fuzz', 'rpc_fuzz', 'rpc_fuzz', 'rpc_end')
+    proc_ops = ('direct_start', 'direct_start')
+    user_ops = ('rpc_fuzz',) * 9 + ('rpc_end',)
     default_behaviours = ('very_slow_stop', 'unkillable', 'run')
     sync_sets = ('TIMEOUT', 'LIST,TIMEOUT')
     late_boot = 0.0
-    op_rate = 0.7
-    managed = 0.9
+    op_rate = 0.8
+    managed = 0.65
 
 
 class PDist(P):
@@ -269,7 +269,7 @@ def classify(runner, monitors, episode):
     return nontrivial, classes
 
 
-CHECK = EpisodeCheck(PROPERTY_ID, st.one_of(episode_st(P), episode_st(PLate), episode_st(PDist)), make_monitors, evaluate, classify, quick=800, thorough=12000,
+CHECK = EpisodeCheck(PROPERTY_ID, st.one_of(episode_st(P), episode_st(PLate), episode_st(PDist)), make_monitors, evaluate, classify, quick=1200, thorough=16000,
                      suffix_kwargs={'ticks': 4, 'boot_dead': False})
 
 
